@@ -96,7 +96,9 @@ def common_first_dim(s):
 
 
 def dtype_of(s):
-    return leaves_of(s)[0].dtype
+    """dtype for operator parameters: the narrowest leaf dtype (parameters no wider than the data)"""
+    dts = [np.dtype(l.dtype) for l in leaves_of(s)]
+    return min(dts, key=lambda d: d.itemsize).type
 
 
 def mk_identity(rng, s):
@@ -323,7 +325,7 @@ def gen_step(rng: random.Random, s, depth: int):
         # block row: every block maps its slot to a common structure
         target = subs[0]
         if all(jax.tree.structure(x) == jax.tree.structure(target) and
-               [l.shape for l in leaves_of(x)] == [l.shape for l in leaves_of(target)] for x in subs):
+               [(l.shape, l.dtype) for l in leaves_of(x)] == [(l.shape, l.dtype) for l in leaves_of(target)] for x in subs):
             return BlockRowOperator(rebuild_container(s, [gen_endo(rng, x, depth - 1) for x in subs]))
     for _ in range(8):
         o = rng.choice(CHANGERS)(rng, s)
